@@ -38,9 +38,11 @@ def cases(tier: str, hname: str) -> List[Any]:
     if hname == "on_ready":
         return [{"pre": p, "post": q} for p in ("sync", "async") for q in ("sync", "async", "default")]
     out = []
-    n1 = 3 if tier == "quick" else 4
-    for e1 in itertools.product(range(len(ENTRY)), repeat=n1):
-        out.append({"t1": list(e1), "max1": n1})
+    for e1 in itertools.product(range(len(ENTRY)), repeat=3):
+        out.append({"t1": list(e1), "max1": 3})
+    if tier == "thorough":
+        for e1 in itertools.product(range(4), repeat=4):  # four entries, without the timezone-aware kind
+            out.append({"t1": list(e1), "max1": 4, "only4": True})
     return out
 
 
@@ -156,7 +158,7 @@ def label_source(c: sym.Ctx, case: Dict[str, Any]) -> None:
     saved_global = dict(AsyncBroker.global_task_registry)
     try:
         broker = make_broker(lab)
-        kinds1 = [ENTRY[k] for k in case["t1"]][: c.choose(list(range(1, case.get("max1", 3) + 1)), "n1")]
+        kinds1 = [ENTRY[k] for k in case["t1"]][: (4 if case.get("only4") else c.choose(list(range(1, case.get("max1", 3) + 1)), "n1"))]
         kinds2 = [ENTRY[c.choose(4, f"t2.{k}")] for k in range(c.choose([0, 1, 2], "n2"))]
         if "timeC" in kinds1:
             c.cover("aware_time")
